@@ -1,16 +1,26 @@
 // Scheduled correspondence harness for ccall.CallConcurrently (C17).  One history = one call.
 //
+// Config:  [k] (optional)  the caller's context is hctx.Flavour(k): k%4 == 1 a context that ends like a deadline (Err() ==
+//
+//	context.DeadlineExceeded), k%4 == 3 one cancelled with a cause (Err() == context.Canceled, Cause == hctx.ErrCause),
+//	otherwise a plain WithCancel context.  CallConcurrently returns the literal context.Canceled for all of them, so
+//	the model does not look at the configuration; code that returns ctx.Err() / context.Cause(ctx) shows as 96 / 97.
+//
 // Events:  [1 f1 .. fn]  CallConcurrently(ctx, fns...) in the caller actor; fi = 1 a harness-owned function, 0 a nil entry
-//          [2 a c]       actor a (0 = the caller, i+1 = the goroutine of function i) runs from its gate to its next stop;
-//                        c (caller only): the select case taken if both are ready, 1 = ctx.Done, 2 = waitCh
-//          [3 i oc]      function i returns oc (1 nil, 2 context.Canceled, 3+e error number e)
-//          [4]           the caller's context is cancelled
+//
+//	[2 a c]       actor a (0 = the caller, i+1 = the goroutine of function i) runs from its gate to its next stop;
+//	              c (caller only): the select case taken if both are ready, 1 = ctx.Done, 2 = waitCh
+//	[3 i oc]      function i returns oc (1 nil, 2 context.Canceled, 3+e error number e)
+//	[4]           the caller's context is cancelled
+//
 // Observation after every event:  [cstat cret] ++ for every entry i [wstat_i entries_i ctxc_i]
-//          cstat  0 not called, 1 at a HoldLock entry gate, 6 at a HoldLock exit gate, 2 blocked, 5 returned, 9 panicked
-//          cret   0 not returned, 1 nil, 2 context.Canceled, 3+e error e, 99 an error no function returned
-//          wstat  0 nil entry / not entered, 3 inside the function, 1 at the gate of its record section,
-//                 4 finished (left its record section; or returned in the one-function path), 2 blocked elsewhere
-//          entries  how often function i was entered;  ctxc  1 if entered and the context it received is cancelled
+//
+//	cstat  0 not called, 1 at a HoldLock entry gate, 6 at a HoldLock exit gate, 2 blocked, 5 returned, 9 panicked
+//	cret   0 not returned, 1 nil, 2 context.Canceled, 3+e error e; errors no function returned: 96
+//	       context.DeadlineExceeded, 97 the cause of the caller's context (hctx.ErrCause), 99 any other error
+//	wstat  0 nil entry / not entered, 3 inside the function, 1 at the gate of its record section,
+//	       4 finished (left its record section; or returned in the one-function path), 2 blocked elsewhere
+//	entries  how often function i was entered;  ctxc  1 if entered and the context it received is cancelled
 //
 // The caller is ALWAYS parked at the exit gates of its own sections (defect D12 lived between the spawn section and
 // the check that follows it).  Which case Go's select takes when both are ready cannot be forced: the event carries
@@ -31,6 +41,7 @@ import (
 	"github.com/aperturerobotics/util/broadcast"
 	"github.com/aperturerobotics/util/ccall"
 	"verif/harness/ctl"
+	"verif/harness/hctx"
 	"verif/harness/hist"
 )
 
@@ -66,6 +77,12 @@ func errCode(err error) int {
 			return 3 + i
 		}
 	}
+	if err == context.DeadlineExceeded {
+		return 96
+	}
+	if err == hctx.ErrCause {
+		return 97
+	}
 	return 99
 }
 
@@ -83,7 +100,8 @@ type sys struct {
 	c          *ctl.Ctl
 	w          *hist.W
 	ctx        context.Context
-	cancel     context.CancelFunc
+	cancel     func() // ends the caller's context in the way of its flavour
+	flavour    int    // 0 plain, 1 deadline-like, 2 cancelled with a cause
 	cancelled  bool
 	caller     *ctl.Actor
 	fns        []bool
@@ -94,9 +112,16 @@ type sys struct {
 	bcastSince bool // a record section ran since the caller last fetched its wait channel
 }
 
-func newSys(w *hist.W) *sys {
+var flavourNames = [3]string{"plain", "deadline_like", "with_cause"}
+
+func newSys(w *hist.W, cfg []uint64) *sys {
 	s := &sys{c: ctl.New(), w: w, gid2w: map[int]int{}}
-	s.ctx, s.cancel = context.WithCancel(context.Background())
+	k := 0
+	if len(cfg) > 0 {
+		k = int(cfg[0] % 4)
+	}
+	s.ctx, s.cancel, s.flavour = hctx.Flavour(context.Background(), k)
+	w.Count("cfg.ctx_flavour."+flavourNames[s.flavour], 1)
 	s.c.Adopt = func(pkg string, site int, obj any) *ctl.Actor {
 		s.mu.Lock()
 		i, ok := s.gid2w[ctl.Gid()]
@@ -262,6 +287,7 @@ func (s *sys) exec(ev []uint64) (obs []uint64, ok bool, actual []uint64) {
 		}
 		if s.caller != nil && !s.caller.Done() && !s.caller.Parked() && len(s.fns) >= 2 {
 			s.w.Count("sit.cancel_while_blocked_in_select", 1)
+			s.w.Count("sit.cancel_while_blocked_in_select.ctx_"+flavourNames[s.flavour], 1)
 		}
 		s.cancelled = true
 		s.cancel()
@@ -425,6 +451,11 @@ func (s *sys) countEnd(last []uint64) {
 		s.w.Count("end.ret_nil", 1)
 	case last[1] == 2:
 		s.w.Count("end.ret_canceled", 1)
+		if s.cancelled {
+			s.w.Count("end.ret_canceled.ctx_ended_"+flavourNames[s.flavour], 1)
+		}
+	case last[1] == 96 || last[1] == 97 || last[1] == 99:
+		s.w.Count(fmt.Sprintf("end.ret_foreign_error_%d.ctx_%s", last[1], flavourNames[s.flavour]), 1)
 	default:
 		s.w.Count("end.ret_error", 1)
 	}
@@ -434,12 +465,12 @@ func (s *sys) countEnd(last []uint64) {
 // the other case than the event asked for.
 // soft (optional): asked when an event is not applicable; true = drop that event and go on with the next one (the end of a
 // corpus prefix in a random history) instead of ending the history.
-func attempt(t *testing.T, w *hist.W, id string, next func(s *sys, k int) []uint64, onEnd func(s *sys), soft func() bool) (complete bool) {
+func attempt(t *testing.T, w *hist.W, id string, cfg []uint64, next func(s *sys, k int) []uint64, onEnd func(s *sys), soft func() bool) (complete bool) {
 	complete = true
 	synctest.Test(t, func(t *testing.T) {
-		s := newSys(w)
+		s := newSys(w, cfg)
 		defer s.teardown()
-		w.Begin(id, nil)
+		w.Begin(id, cfg)
 		var last []uint64
 		for k := 0; ; k++ {
 			ev := next(s, k)
@@ -503,7 +534,9 @@ func runRandom(t *testing.T, w *hist.W, h int) {
 			id = fmt.Sprintf("r%d.retry%d", h, att)
 		}
 		pi, inPrefix, generated := 0, prefix != nil, 0
-		if attempt(t, w, id, func(s *sys, k int) []uint64 {
+		// the flavour of the caller's context: a function of the history number (every attempt repeats it)
+		cfg := []uint64{uint64(h % 4)}
+		if attempt(t, w, id, cfg, func(s *sys, k int) []uint64 {
 			if inPrefix {
 				if pi < len(prefix) && len(prefix[pi]) > 0 {
 					pi++
@@ -530,13 +563,13 @@ func runRandom(t *testing.T, w *hist.W, h int) {
 	w.Count("select.gave_up", 1)
 }
 
-func runFixed(t *testing.T, w *hist.W, id string, evs [][]uint64) {
+func runFixed(t *testing.T, w *hist.W, id string, cfg []uint64, evs [][]uint64) {
 	for att := 0; att < maxAttempts; att++ {
 		aid := id
 		if att > 0 {
 			aid = fmt.Sprintf("%s.retry%d", id, att)
 		}
-		if attempt(t, w, aid, func(s *sys, k int) []uint64 {
+		if attempt(t, w, aid, cfg, func(s *sys, k int) []uint64 {
 			if k >= len(evs) || len(evs[k]) == 0 {
 				return nil
 			}
@@ -560,13 +593,13 @@ func TestCCall(t *testing.T) {
 			t.Fatal(err)
 		}
 		for _, h := range hs {
-			runFixed(t, w, h.ID, h.Evs)
+			runFixed(t, w, h.ID, h.Cfg, h.Evs)
 		}
 		return
 	}
 	corpusMotifs = hist.LoadCorpus(*hist.Corpus)
 	for _, h := range corpusMotifs {
-		runFixed(t, w, h.ID, h.Evs)
+		runFixed(t, w, h.ID, h.Cfg, h.Evs)
 		w.Count("corpus", 1)
 	}
 	for h := 0; h < *hist.NHist; h++ {
